@@ -38,24 +38,26 @@ import (
 
 // Scenario is one workload on one shared span (+ optional gate script).
 type Scenario struct {
-	Name     string   `json:"name,omitempty"`
-	RT       bool     `json:"rt"`       // runtime/trace started before the span is started
-	NProcs   int      `json:"nprocs"`   // registered recording processors
-	Enders   int      `json:"enders"`   // goroutines calling End
-	EndsPer  int      `json:"endsPer"`  // sequential End calls per ender (default 1)
-	TS       bool     `json:"ts"`       // End(WithTimestamp(t_k)), k unique per call
-	Muts     []string `json:"muts"`     // one mutator goroutine per entry: kind of its first call
-	MutsPer  int      `json:"mutsPer"`  // calls per mutator (default 1); later calls use attrs/event/link/error
-	Children int      `json:"children"` // goroutines starting (and ending) a child span
-	Readers  int      `json:"readers"`  // goroutines calling IsRecording
-	ReadsPer int      `json:"readsPer"`
-	ETimers  int      `json:"etimers"` // goroutines reading ReadWriteSpan.EndTime()
-	Provs    int      `json:"provs"`   // goroutines using the provider concurrently (Tracer, Register/Unregister, ForceFlush)
-	Regs     int      `json:"regs"`    // goroutines g<i> registering one more recording processor p<nprocs+i> each
-	Perturb  float64  `json:"perturb"`
-	Tight    bool     `json:"tight"` // no jitter: all goroutines spin on a barrier and make their first call together
-	Script   []string `json:"script,omitempty"`
-	Seed     int64    `json:"seed"`
+	Name      string   `json:"name,omitempty"`
+	RT        bool     `json:"rt"`       // runtime/trace started before the span is started
+	NProcs    int      `json:"nprocs"`   // registered recording processors
+	Enders    int      `json:"enders"`   // goroutines calling End
+	EndsPer   int      `json:"endsPer"`  // sequential End calls per ender (default 1)
+	TS        bool     `json:"ts"`       // End(WithTimestamp(t_k)), k unique per call
+	Muts      []string `json:"muts"`     // one mutator goroutine per entry: kind of its first call
+	MutsPer   int      `json:"mutsPer"`  // calls per mutator (default 1); later calls use attrs/event/link/error
+	Children  int      `json:"children"` // goroutines starting (and ending) a child span
+	Readers   int      `json:"readers"`  // goroutines calling IsRecording
+	ReadsPer  int      `json:"readsPer"`
+	ETimers   int      `json:"etimers"`   // goroutines reading ReadWriteSpan.EndTime()
+	Provs     int      `json:"provs"`     // goroutines using the provider concurrently (Tracer, Register/Unregister, ForceFlush)
+	Regs      int      `json:"regs"`      // goroutines g<i> registering one more recording processor p<nprocs+i> each
+	Lim       int      `json:"lim"`       // >0: Event/Link/AttributeCountLimit = lim and lim events, links, attributes recorded beforehand (queues full)
+	Panickers int      `json:"panickers"` // the first k enders call End as a deferred call during a panic (recover branch of End)
+	Perturb   float64  `json:"perturb"`
+	Tight     bool     `json:"tight"` // no jitter: all goroutines spin on a barrier and make their first call together
+	Script    []string `json:"script,omitempty"`
+	Seed      int64    `json:"seed"`
 }
 
 var tsBase = time.Date(2030, 1, 1, 0, 0, 0, 0, time.UTC)
@@ -111,6 +113,8 @@ type scState struct {
 	tw       *vh.TraceWriter
 	sched    *vh.Sched
 	scripted bool
+	lim      int
+	endRets  atomic.Int64 // End calls on the shared span that have returned
 	mu       sync.Mutex
 	spans    map[trace.SpanID]int // span id -> small int (1 = the shared span, 10+k = children)
 	ets      map[int][]time.Time  // span -> distinct implicit end times seen (index+100 = et id)
@@ -171,6 +175,55 @@ func (st *scState) etID(span int, t time.Time) int {
 	return 100 + len(st.ets[span]) - 1
 }
 
+// ---------------------------------------------------------------- user code inside span methods = natural gates
+// userGate is called from err.Error() (RecordError) and from the Error()/String() method of a recovered
+// panic value (End deferred during a panic). Scripted: the two-phase gate. Random: perturbation, and half
+// of the time it lets an End overtake: it waits (bounded, never a verdict) until one more End has returned.
+func (st *scState) userGate(proc, point string, r *rand.Rand) {
+	if st.scripted {
+		st.gate(proc, point)
+		return
+	}
+	st.arrive(proc + "@" + point)
+	if r.Intn(2) == 0 {
+		n := st.endRets.Load()
+		for t0 := time.Now(); st.endRets.Load() == n && time.Since(t0) < 1500*time.Microsecond; {
+			runtime.Gosched()
+		}
+	}
+}
+
+// gateErr is the error passed to RecordError: its Error method is user code that RecordError runs.
+type gateErr struct {
+	st   *scState
+	proc string
+	msg  string
+	r    *rand.Rand
+	once sync.Once
+}
+
+func (e *gateErr) Error() string {
+	e.once.Do(func() { e.st.userGate(e.proc, "err.Error", e.r) })
+	return e.msg
+}
+
+// gatePanic / gatePanicS are panic values (an error / a fmt.Stringer): End formats them with fmt.Sprint.
+type gatePanic struct {
+	st   *scState
+	proc string
+	r    *rand.Rand
+	once sync.Once
+}
+
+func (v *gatePanic) Error() string {
+	v.once.Do(func() { v.st.userGate(v.proc, "panic.Format", v.r) })
+	return "panic-" + v.proc
+}
+
+type gatePanicS struct{ g *gatePanic }
+
+func (v gatePanicS) String() string { return v.g.Error() }
+
 // ---------------------------------------------------------------- mutations and their projection
 func tokKey(t int, part string) attribute.Key { return attribute.Key(fmt.Sprintf("t%d%s", t, part)) }
 
@@ -178,6 +231,10 @@ func linkSC(t int) trace.SpanContext {
 	return trace.NewSpanContext(trace.SpanContextConfig{
 		TraceID: trace.TraceID{0xEE, 1}, SpanID: trace.SpanID{0xEE, 0, 0, 0, 0, 0, byte(t >> 8), byte(t)},
 	})
+}
+
+func prefillLink(k int) trace.SpanContext {
+	return trace.NewSpanContext(trace.SpanContextConfig{TraceID: trace.TraceID{0xEF, 1}, SpanID: trace.SpanID{0xEF, 0, 0, 0, 0, 0, 0, byte(k)}})
 }
 
 func applyMutation(s trace.Span, kind string, t int) {
@@ -198,6 +255,12 @@ func applyMutation(s trace.Span, kind string, t int) {
 	}
 }
 
+// proj is the projection of a snapshot onto what the contract talks about.
+type proj struct {
+	full, partial                  []int
+	evmiss, evdrop, lkmiss, lkdrop int
+}
+
 func hasAB(kvs []attribute.KeyValue, t int) int {
 	n := 0
 	for _, kv := range kvs {
@@ -209,8 +272,8 @@ func hasAB(kvs []attribute.KeyValue, t int) int {
 }
 
 // project returns the tokens wholly present and the tokens partly present (or duplicated) in ro.
-func project(ro sdktrace.ReadOnlySpan, kinds map[int]string) (full, partial []int) {
-	full, partial = []int{}, []int{}
+func project(ro sdktrace.ReadOnlySpan, kinds map[int]string, lim int) proj {
+	full, partial := []int{}, []int{}
 	attrs, events, links, status, name := ro.Attributes(), ro.Events(), ro.Links(), ro.Status(), ro.Name()
 	for t, kind := range kinds {
 		have, total := 0, 0
@@ -244,7 +307,7 @@ func project(ro sdktrace.ReadOnlySpan, kinds map[int]string) (full, partial []in
 			if name == fmt.Sprintf("t%d", t) {
 				have = 1
 			}
-		case "error":
+		case "error", "uerror":
 			total = 3
 			for _, e := range events {
 				msg, typ := false, false
@@ -273,7 +336,27 @@ func project(ro sdktrace.ReadOnlySpan, kinds map[int]string) (full, partial []in
 	}
 	sort.Ints(full)
 	sort.Ints(partial)
-	return full, partial
+	pr := proj{full: full, partial: partial}
+	if lim > 0 { // which of the events / links recorded beforehand (the oldest entries of the FIFOs) are gone
+		pr.evdrop, pr.lkdrop = ro.DroppedEvents(), ro.DroppedLinks()
+		for k := 1; k <= lim; k++ {
+			found := false
+			for _, e := range events {
+				found = found || e.Name == fmt.Sprintf("i%d", k)
+			}
+			if !found {
+				pr.evmiss++
+			}
+			found = false
+			for _, l := range links {
+				found = found || l.SpanContext.SpanID() == prefillLink(k).SpanID()
+			}
+			if !found {
+				pr.lkmiss++
+			}
+		}
+	}
+	return pr
 }
 
 func digest(ro sdktrace.ReadOnlySpan) string {
@@ -291,7 +374,7 @@ func digest(ro sdktrace.ReadOnlySpan) string {
 		ro.ChildSpanCount(), ro.DroppedAttributes(), ro.DroppedEvents(), ro.DroppedLinks(), "|")
 	kv(ro.Attributes())
 	for _, e := range ro.Events() {
-		fmt.Fprint(&b, "E", e.Name, e.DroppedAttributeCount)
+		fmt.Fprint(&b, "E", e.Name, e.DroppedAttributeCount, e.Time.UnixNano())
 		kv(e.Attributes)
 	}
 	for _, l := range ro.Links() {
@@ -326,23 +409,27 @@ func (p *recProc) OnEnd(ro sdktrace.ReadOnlySpan) {
 	if !ok {
 		return
 	}
-	if span == 1 {
-		st.gate(pi.name, fmt.Sprintf("onend:p%d", p.idx))
-	}
+	// read what is handed over first (a deep copy by value: digest + projection), then wait at the gate:
+	// whatever changes the snapshot afterwards shows up in a later Reread
 	st.mu.Lock()
 	kinds := st.kinds
 	st.mu.Unlock()
+	lim := st.lim
 	if span != 1 {
-		kinds = nil
+		kinds, lim = nil, 0
 	}
-	full, partial := project(ro, kinds)
-	st.emit(map[string]any{"ev": "OnEnd", "p": p.idx, "span": span, "proc": pi.name, "et": st.etID(span, ro.EndTime()),
-		"full": full, "partial": partial, "child": ro.ChildSpanCount()})
+	d0, pr, et, child := digest(ro), project(ro, kinds, lim), st.etID(span, ro.EndTime()), ro.ChildSpanCount()
+	if span == 1 {
+		st.gate(pi.name, fmt.Sprintf("onend:p%d", p.idx))
+	}
+	st.emit(map[string]any{"ev": "OnEnd", "p": p.idx, "span": span, "proc": pi.name, "et": et,
+		"full": pr.full, "partial": pr.partial, "child": child,
+		"evmiss": pr.evmiss, "evdrop": pr.evdrop, "lkmiss": pr.lkmiss, "lkdrop": pr.lkdrop})
 	st.mu.Lock()
-	st.keep = append(st.keep, kept{p.idx, span, ro, digest(ro)})
+	st.keep = append(st.keep, kept{p.idx, span, ro, d0})
 	if span == 1 && p.idx <= len(st.handed) {
 		st.handed[p.idx-1]++
-		st.nfull, st.child = len(full), ro.ChildSpanCount()
+		st.nfull, st.child = len(pr.full), child
 	}
 	st.mu.Unlock()
 }
@@ -384,12 +471,17 @@ func runScenario(scn int, sc Scenario, tw *vh.TraceWriter, res *vh.Result, hooks
 	sched.Timeout = 150 * time.Millisecond
 	sched.MaxSleep = 60 * time.Microsecond
 	sched.KeepLog = os.Getenv("VERIF_C10_DEBUG") != ""
-	st := &scState{scn: scn, tw: tw, sched: sched, scripted: sc.Script != nil, spans: map[trace.SpanID]int{}, ets: map[int][]time.Time{},
+	st := &scState{scn: scn, tw: tw, sched: sched, scripted: sc.Script != nil, lim: sc.Lim, spans: map[trace.SpanID]int{}, ets: map[int][]time.Time{},
 		kinds: map[int]string{}, rw: map[int]sdktrace.ReadWriteSpan{}, handed: make([]int, sc.NProcs+sc.Regs), child: -1}
 	cur.Store(st)
-	st.emit(map[string]any{"ev": "Cfg", "rt": sc.RT, "nprocs": sc.NProcs, "hooks": hooks, "name": sc.Name})
+	st.emit(map[string]any{"ev": "Cfg", "rt": sc.RT, "nprocs": sc.NProcs, "hooks": hooks, "name": sc.Name, "lim": sc.Lim})
 
 	opts := []sdktrace.TracerProviderOption{sdktrace.WithSampler(sdktrace.AlwaysSample())}
+	if sc.Lim > 0 {
+		l := sdktrace.NewSpanLimits()
+		l.EventCountLimit, l.LinkCountLimit, l.AttributeCountLimit = sc.Lim, sc.Lim, sc.Lim
+		opts = append(opts, sdktrace.WithRawSpanLimits(l))
+	}
 	for i := 1; i <= sc.NProcs; i++ {
 		opts = append(opts, sdktrace.WithSpanProcessor(&recProc{idx: i}))
 	}
@@ -403,6 +495,11 @@ func runScenario(scn int, sc Scenario, tw *vh.TraceWriter, res *vh.Result, hooks
 	st.mu.Lock()
 	st.spans[span.SpanContext().SpanID()] = 1
 	st.mu.Unlock()
+	for k := 1; k <= sc.Lim; k++ { // the queues are at their limits before anybody starts
+		span.AddEvent(fmt.Sprintf("i%d", k))
+		span.AddLink(trace.Link{SpanContext: prefillLink(k)})
+		span.SetAttributes(attribute.Int(fmt.Sprintf("ia%d", k), k))
+	}
 
 	sdktrace.SetVerifHook(func(point string, args ...any) {
 		if !hookPoints[point] || len(args) == 0 {
@@ -474,6 +571,9 @@ func runScenario(scn int, sc Scenario, tw *vh.TraceWriter, res *vh.Result, hooks
 		st.arrive(name + "@call")
 		st.emit(map[string]any{"ev": "Call", "op": op, "proc": name, "span": span, "arg": arg})
 		val := f()
+		if op == "End" && span == 1 {
+			st.endRets.Add(1)
+		}
 		st.emit(map[string]any{"ev": "Ret", "op": op, "proc": name, "span": span, "arg": arg, "val": val})
 		st.arrive(name + "@ret+")
 	}
@@ -495,12 +595,35 @@ func runScenario(scn int, sc Scenario, tw *vh.TraceWriter, res *vh.Result, hooks
 					arg = int(atomic.AddInt64(&tsCtr, 1))
 					o = append(o, trace.WithTimestamp(tsBase.Add(time.Duration(arg)*time.Second)))
 				}
-				call(name, "End", 1, arg, func() bool { span.End(o...); return false })
+				if i > sc.Panickers || k > 0 {
+					call(name, "End", 1, arg, func() bool { span.End(o...); return false })
+					continue
+				}
+				// End as a deferred call during a real panic: its recover branch formats the panic value
+				// (user code: the gate), adds an exception event, ends the span and panics again
+				res.Count("ends_deferred_during_panic", 1)
+				g := &gatePanic{st: st, proc: name, r: r}
+				var pv any = g
+				if r.Intn(2) == 0 {
+					pv = gatePanicS{g}
+				}
+				if r.Intn(3) == 0 {
+					o = append(o, trace.WithStackTrace(true))
+				}
+				call(name, "End", 1, arg, func() bool {
+					defer func() {
+						if x := recover(); x != pv {
+							panic(x) // not ours: a panic inside End
+						}
+					}()
+					defer span.End(o...)
+					panic(pv)
+				})
 			}
 		})
 	}
 	tok := 0
-	later := []string{"attrs", "event", "link", "error"}
+	later := []string{"attrs", "event", "link", "error", "uerror"}
 	for i, kind := range sc.Muts {
 		name := fmt.Sprintf("m%d", i+1)
 		toks, kinds := []int{}, []string{}
@@ -516,7 +639,20 @@ func runScenario(scn int, sc Scenario, tw *vh.TraceWriter, res *vh.Result, hooks
 		start(name, func(r *rand.Rand) {
 			for k := range toks {
 				jitter(r)
-				call(name, "Mut", 1, toks[k], func() bool { applyMutation(span, kinds[k], toks[k]); return false })
+				call(name, "Mut", 1, toks[k], func() bool {
+					if kinds[k] == "uerror" { // RecordError with an error whose Error method is a gate
+						res.Count("recorderror_with_gate_error", 1)
+						ge := &gateErr{st: st, proc: name, msg: fmt.Sprintf("t%d", toks[k]), r: r}
+						if r.Intn(3) == 0 {
+							span.RecordError(ge, trace.WithStackTrace(true))
+						} else {
+							span.RecordError(ge)
+						}
+						return false
+					}
+					applyMutation(span, kinds[k], toks[k])
+					return false
+				})
 			}
 		})
 	}
@@ -661,6 +797,21 @@ func runScenario(scn int, sc Scenario, tw *vh.TraceWriter, res *vh.Result, hooks
 			st.emit(map[string]any{"ev": "Call", "op": "IsRec", "proc": "fin", "span": 1, "arg": 0})
 			st.emit(map[string]any{"ev": "Ret", "op": "IsRec", "proc": "fin", "span": 1, "arg": 0, "val": span.IsRecording()})
 			st.reread()
+			if sc.Enders > 0 {
+				// every mutator once more on the ended span (new keys and keys the snapshot holds), then
+				// read every kept snapshot again: nothing may have changed
+				st.emit(map[string]any{"ev": "Call", "op": "Post", "proc": "fin", "span": 1, "arg": 0})
+				span.AddEvent("post", trace.WithAttributes(attribute.Int("post", 1)))
+				span.AddLink(trace.Link{SpanContext: linkSC(9999), Attributes: []attribute.KeyValue{attribute.Int("post", 1)}})
+				span.RecordError(errors.New("post"))
+				span.SetAttributes(attribute.Int("post", 1), attribute.Int("ia1", -1), tokKey(1, "a").Int(-1), tokKey(1, "b").String("post"))
+				span.SetStatus(codes.Error, "post")
+				span.SetName("post")
+				_, ch := tracer.Start(trace.ContextWithSpan(context.Background(), span), "post-child")
+				ch.End()
+				st.emit(map[string]any{"ev": "Ret", "op": "Post", "proc": "fin", "span": 1, "arg": 0, "val": false})
+				st.reread()
+			}
 		})
 		stuck = await()
 	}
@@ -680,6 +831,9 @@ func runScenario(scn int, sc Scenario, tw *vh.TraceWriter, res *vh.Result, hooks
 	handed, nfull, child := append([]int{}, st.handed...), st.nfull, st.child
 	st.mu.Unlock()
 	res.Count("snapshots_kept", int64(nk))
+	if sc.Lim > 0 {
+		res.Count("scenarios_small_limits", 1)
+	}
 	if sc.RT {
 		res.Count("scenarios_rt_on", 1)
 	} else {
@@ -704,12 +858,13 @@ func lockWaiters() (string, map[string]bool) {
 }
 
 func randomScenario(r *rand.Rand) Scenario {
-	firsts := []string{"attrs", "event", "link", "error"}
+	firsts := []string{"attrs", "event", "link", "error", "uerror", "uerror"}
 	sc := Scenario{
 		RT: r.Intn(3) != 0, NProcs: 1 + r.Intn(3), Enders: 1 + r.Intn(4), EndsPer: 1 + r.Intn(2), TS: r.Intn(2) == 0,
 		MutsPer: 1 + r.Intn(3), Children: r.Intn(3), Readers: r.Intn(3), ReadsPer: 1 + r.Intn(3), ETimers: r.Intn(2),
 		Perturb: []float64{0, 0.3, 0.7}[r.Intn(3)], Seed: r.Int63(), Muts: []string{}, Tight: r.Intn(3) == 0,
 		Provs: r.Intn(3) / 2, Regs: r.Intn(4) / 2,
+		Lim: []int{0, 0, 1, 2, 3}[r.Intn(5)], Panickers: r.Intn(3) / 2,
 	}
 	for i, n := 0, r.Intn(4); i < n; i++ {
 		sc.Muts = append(sc.Muts, firsts[r.Intn(len(firsts))])
@@ -842,9 +997,108 @@ func probe() {
 		out["two_enders"] = map[string]any{"completed": ok, "reached_window": []bool{r0, r1}, "delivered": n}
 	}
 	setRT(false)
+	out["user_code"] = probeUserCode()
 	b, _ := json.Marshal(out)
 	fmt.Println(string(b))
 }
+
+// probeErr / probePanic run f from inside the user code that RecordError / End's recover branch calls.
+type probeErr struct{ f func() }
+
+func (e *probeErr) Error() string { e.f(); return "probe" }
+
+// probeUserCode reports, for RecordError (err.Error()) and for End deferred during a panic (formatting of
+// the recovered value), whether span.mu is held while the user code runs ("locked") and, if it is not,
+// whether the method re-checks isRecording afterwards: an End is run to completion inside the user code;
+// "recheck" = the late exception event is not recorded / the span is delivered once, "norecheck" otherwise.
+func probeUserCode() map[string]string {
+	within := func(d time.Duration, f func()) bool {
+		done := make(chan struct{})
+		go func() { f(); close(done) }()
+		select {
+		case <-done:
+			return true
+		case <-time.After(d):
+			return false
+		}
+	}
+	newSpan := func() (*countProc, *recProc, trace.Span) {
+		cp, rp := &countProc{}, &recProc{idx: 1}
+		tp := sdktrace.NewTracerProvider(sdktrace.WithSpanProcessor(cp), sdktrace.WithSpanProcessor(rp))
+		_, s := tp.Tracer("probe").Start(context.Background(), "probe-user")
+		return cp, rp, s
+	}
+	panicEnd := func(s trace.Span, pv any) {
+		defer func() { _ = recover() }()
+		defer s.End()
+		panic(pv)
+	}
+	res := map[string]string{}
+	// RecordError
+	_, _, s := newSpan()
+	free := false
+	s.RecordError(&probeErr{func() { free = within(500*time.Millisecond, func() { s.IsRecording() }) }})
+	s.End()
+	switch {
+	case !free:
+		res["mshape"] = "locked"
+	default:
+		var keep sdktrace.ReadOnlySpan
+		cp, _, s := newSpan()
+		_ = cp
+		kp := &keepProc{}
+		tp := sdktrace.NewTracerProvider(sdktrace.WithSpanProcessor(kp))
+		_, s = tp.Tracer("probe").Start(context.Background(), "probe-user2")
+		ended := false
+		s.RecordError(&probeErr{func() { ended = within(5*time.Second, func() { s.End() }) }})
+		keep = kp.ro
+		late := false
+		if rw, ok := s.(sdktrace.ReadWriteSpan); ok {
+			late = len(rw.Events()) > 0
+		}
+		switch {
+		case !ended || keep == nil:
+			res["mshape"] = "unknown"
+		case late:
+			res["mshape"] = "norecheck"
+		default:
+			res["mshape"] = "recheck"
+		}
+	}
+	// End deferred during a panic
+	_, _, s = newSpan()
+	free = false
+	panicEnd(s, &probeErr{func() { free = within(500*time.Millisecond, func() { s.IsRecording() }) }})
+	switch {
+	case !free:
+		res["pshape"] = "locked"
+	default:
+		cp, _, s := newSpan()
+		ended := false
+		panicEnd(s, &probeErr{func() { ended = within(5*time.Second, func() { s.End() }) }})
+		n, _ := cp.take()
+		switch {
+		case !ended:
+			res["pshape"] = "unknown"
+		case n == 1:
+			res["pshape"] = "recheck"
+		default:
+			res["pshape"] = "norecheck"
+		}
+	}
+	return res
+}
+
+type keepProc struct {
+	ro sdktrace.ReadOnlySpan
+	d0 string
+	n  int
+}
+
+func (p *keepProc) OnStart(context.Context, sdktrace.ReadWriteSpan) {}
+func (p *keepProc) OnEnd(ro sdktrace.ReadOnlySpan)                  { p.ro, p.d0, p.n = ro, digest(ro), p.n+1 }
+func (p *keepProc) Shutdown(context.Context) error                  { return nil }
+func (p *keepProc) ForceFlush(context.Context) error                { return nil }
 
 // bulk: hook-free volume stress. n spans, each ended by `enders` goroutines at once, runtime/trace
 // started (a short tail without it), two counting processors; one summarised trace line per span,
@@ -857,7 +1111,7 @@ func bulk(n, enders int, tw *vh.TraceWriter, res *vh.Result) {
 	rng := rand.New(rand.NewSource(vh.Seed()))
 	phase := func(sc, n int, rtOn bool) {
 		setRT(rtOn)
-		tw.Emit(map[string]any{"ev": "Cfg", "sc": sc, "rt": rtOn, "nprocs": 2, "hooks": false, "name": "bulk"})
+		tw.Emit(map[string]any{"ev": "Cfg", "sc": sc, "rt": rtOn, "nprocs": 2, "hooks": false, "name": "bulk", "lim": 0})
 		var wg sync.WaitGroup
 		for i := 0; i < n; i++ {
 			_, s := tracer.Start(context.Background(), "b")
@@ -900,6 +1154,84 @@ func bulk(n, enders int, tw *vh.TraceWriter, res *vh.Result) {
 	phase(0, n, true)
 	phase(1, n/8, false)
 	setRT(false)
+	bulkMut(2, n, tw, res, rng)
+}
+
+// bulkMut: hook-free volume stress of "mutator overtaken by End". Every span has its event / link /
+// attribute storage at the limit (lim entries recorded beforehand); one End and one call of each of
+// AddEvent, AddLink, SetAttributes (a key the span holds), RecordError start together. The processor
+// keeps the snapshot with a digest; after everybody returned the snapshot is read again. One line per
+// span; the contract judges it (snapshot-mutated, torn-mutation, delivered-twice, not-delivered).
+func bulkMut(sc0, n int, tw *vh.TraceWriter, res *vh.Result, rng *rand.Rand) {
+	for lim := 1; lim <= 3; lim++ {
+		kp := &keepProc{}
+		l := sdktrace.NewSpanLimits()
+		l.EventCountLimit, l.LinkCountLimit, l.AttributeCountLimit = lim, lim, lim
+		tp := sdktrace.NewTracerProvider(sdktrace.WithSpanProcessor(kp), sdktrace.WithRawSpanLimits(l))
+		tracer := tp.Tracer("c10-bulkmut")
+		tw.Emit(map[string]any{"ev": "Cfg", "sc": sc0 + lim - 1, "rt": false, "nprocs": 1, "hooks": false, "name": "bulkmut", "lim": lim})
+		var wg sync.WaitGroup
+		for i := 0; i < 2*n/3; i++ {
+			_, s := tracer.Start(context.Background(), "b")
+			for k := 1; k <= lim; k++ {
+				s.AddEvent(fmt.Sprintf("i%d", k))
+				s.AddLink(trace.Link{SpanContext: prefillLink(k)})
+				s.SetAttributes(attribute.Int(fmt.Sprintf("ia%d", k), k))
+			}
+			kp.n, kp.ro = 0, nil
+			var flag atomic.Int32
+			delay := rng.Intn(400) // End a little after the others: their recording checks are under way
+			ops := []func(){
+				func() {
+					for k := 0; k < delay; k++ {
+						_ = flag.Load()
+					}
+					s.End()
+				},
+			}
+			for c := 0; c < 1; c++ {
+				ops = append(ops,
+					func() { s.AddEvent("late") },
+					func() { s.AddLink(trace.Link{SpanContext: linkSC(7)}) },
+					func() { s.SetAttributes(attribute.Int("ia1", -1)) },
+					func() { s.RecordError(errors.New("late")) })
+			}
+			for c := 0; c < 3; c++ { // lock contention stretches everybody's way from a check to the next Lock
+				ops = append(ops, func() {
+					for k := 0; k < 40; k++ {
+						s.IsRecording()
+					}
+				})
+			}
+			rng.Shuffle(len(ops), func(a, b int) { ops[a], ops[b] = ops[b], ops[a] })
+			wg.Add(len(ops))
+			for _, op := range ops {
+				go func() {
+					for spins := 0; flag.Load() == 0; spins++ {
+						if spins > 200 {
+							runtime.Gosched()
+						}
+					}
+					op()
+					wg.Done()
+				}()
+			}
+			flag.Store(1)
+			wg.Wait()
+			ev := map[string]any{"ev": "Bulk2", "sc": sc0 + lim - 1, "span": i, "handed": kp.n, "same": true,
+				"evmiss": 0, "evdrop": 0, "lkmiss": 0, "lkdrop": 0}
+			if kp.ro != nil {
+				pr := project(kp.ro, nil, lim)
+				ev["same"] = digest(kp.ro) == kp.d0
+				ev["evmiss"], ev["evdrop"], ev["lkmiss"], ev["lkdrop"] = pr.evmiss, pr.evdrop, pr.lkmiss, pr.lkdrop
+				if ev["same"] == false {
+					res.Count("bulkmut_snapshots_changed", 1)
+				}
+			}
+			tw.Emit(ev)
+		}
+		res.Count("bulkmut_spans", int64(2*n/3))
+	}
 }
 
 func main() {
@@ -927,7 +1259,7 @@ func main() {
 	switch os.Args[1] {
 	case "bulk":
 		bulk(*n, *enders, tw, res)
-		res.Executed = int64(*n + *n/8)
+		res.Executed = int64(*n + *n/8 + 2**n/3*3)
 	case "random":
 		r := rand.New(rand.NewSource(vh.Seed()))
 		for i := 0; i < *n; i++ {
